@@ -1018,7 +1018,8 @@ impl Server {
                             transactions::handle_unwatch(conn, &self.storage)
                         }).unwrap_or_else(|| Ok(RespFrame::error("ERR connection not found")));
                     }
-                    "PUBLISH" => return self.handle_publish(parts),
+                    // Inside MULTI, PUBLISH is queued like any other command
+                    "PUBLISH" if !in_transaction => return self.handle_publish(parts),
                     "SUBSCRIBE" => return self.handle_subscribe(parts, conn_id),
                     "UNSUBSCRIBE" => return self.handle_unsubscribe(parts, conn_id),
                     "PSUBSCRIBE" => return self.handle_psubscribe(parts, conn_id),
@@ -1205,6 +1206,7 @@ impl Server {
         let result = match command_name.as_str() {
             "PING" => self.handle_ping(parts),
             "ECHO" => self.handle_echo(parts),
+            "PUBLISH" => self.handle_publish(parts),
             "SET" => self.handle_set(parts, db),
             "GET" => self.handle_get(parts, db),
             "INCR" => self.handle_incr(parts, db),
